@@ -24,6 +24,11 @@ func init() {
 		NotDecided: "Exactness of ipaddr.Summarize (third-party arithmetic), label-selector semantics, that cidrContainsCIDR is a correct containment test as values.",
 		Run:        runC08,
 		Mutants: []Mutant{
+			{Name: "family-of-cidr-by-mask-length", File: "internal/ipfamily/ipfamily.go",
+				Old: "\tif cidr.IP.To4() == nil {",
+				New: "\tif len(cidr.Mask) == net.IPv6len {", Expect: "FAMILY-OF"},
+			{Name: "aggregation-length-carried-across-groups", File: "internal/config/config.go",
+				Old: "\tfor addr, cidrs := range pool.cidrsPerAddresses {\n\t\tif len(cidrs) == 0 {\n\t\t\tcontinue\n\t\t}\n\t\tmaxLength := adv.AggregationLength", New: "\tmaxLength := adv.AggregationLength\n\tfor addr, cidrs := range pool.cidrsPerAddresses {\n\t\tif len(cidrs) == 0 {\n\t\t\tcontinue\n\t\t}", Expect: "ADV-VALID"},
 			{Name: "aggregation-length-one-family-enough", File: "internal/config/config.go",
 				Old: "\tif adv.AggregationLength != newAdv.AggregationLength && !hasV6 {", New: "\tif adv.AggregationLength != newAdv.AggregationLength {", Expect: "AGGR-DIFF"},
 			{Name: "unlabeled-pools-never-selected", File: "internal/config/config.go",
@@ -70,6 +75,7 @@ func runC08(p *chk.Prog, r *chk.Report) {
 	c08AdvValid(p, r)
 	c08Select(p, r)
 	c08For(p, r)
+	familyOfRule(p, r)
 }
 
 func c08Parse(p *chk.Prog, r *chk.Report) {
@@ -412,7 +418,9 @@ func c08AdvValid(p *chk.Prog, r *chk.Report) {
 					as := d.(*ast.AssignStmt)
 					site := g.Find(func(n ast.Node) bool { return n == ast.Node(as) })
 					switch {
-					case f.MatchWith("A.AggregationLength", as.Rhs[0], chk.H("A", adv)) != nil:
+					case f.MatchWith("A.AggregationLength", as.Rhs[0], chk.H("A", adv)) != nil && chk.InBody(rs, as):
+						// set anew for every group: a value carried over from the previous group (an IPv6 group visited
+						// first - the groups are a map) would be compared with an IPv4 group
 						n4++
 					case f.MatchWith("A.AggregationLengthV6", as.Rhs[0], chk.H("A", adv)) != nil && len(site) == 1 &&
 						g.Dominated(site[0], g.GPat(true, "G[0].IP.To4() == nil", chk.H("G", grp))):
